@@ -11,6 +11,7 @@ import itertools
 import json
 import os
 import re
+import signal
 import subprocess
 import sys
 
@@ -150,13 +151,32 @@ def walk(nodes):
             yield from walk(nd.nodes)
 
 
+class _LexTimeout(BaseException):
+    pass
+
+
+def _lex_timeout(signum, frame):
+    raise _LexTimeout()
+
+
 def check_source(src, res, want_render=True):
     ex = _state["exceptions"]
     pt = _state["parsetree"]
     lx = _state["Mon"](src)
     res.evaluations += 1
     try:
-        tree = lx.parse()
+        # "lexing any string terminates": a short string that burns 20 s of this process's own CPU time (a virtual
+        # timer, so a loaded machine does not count) does not; the worker must not hang on it either
+        signal.signal(signal.SIGVTALRM, _lex_timeout)
+        signal.setitimer(signal.ITIMER_VIRTUAL, 20.0)
+        try:
+            tree = lx.parse()
+        finally:
+            signal.setitimer(signal.ITIMER_VIRTUAL, 0)
+    except _LexTimeout:
+        res.violate("lexing-does-not-terminate", "Lexer(%r).parse() used more than 20 s of CPU time (%d characters)" % (src[:200], len(src)),
+                    witness=repr(src[:80]), replay_case={"kind": "source", "source": src})
+        return
     except (ex.SyntaxException, ex.CompileException):
         res.count("parses_rejected")
         expected = ref_render(src)
